@@ -23,7 +23,7 @@ func (c14) BatchSize(tier string) int {
 func (c14) Rule() string {
 	return "a case is one scenario: 2-6 simulated tasks, each a script of engine/compile/invoke/eval/debug operations over " +
 		"private engines, warmed shared engines and pre-compiled shared callables, executed under a seeded schedule source " +
-		"(random walk p in {.01,.05,.3,1}, PCT-style d<=3 preemption points, store-biased, replay) with hash-order mode and VM knobs drawn per run; " +
+		"(random walk p in {.01,.05,.3,1}, PCT-style d<=3 preemption points, store-biased, synchronisation-biased, replay) with hash-order mode and VM knobs drawn per run; " +
 		"evaluations = concurrent runs; a run is non-trivial when at least one preemption (context switch not forced by task end or lock wait) happened; " +
 		"distinct = distinct FNV hashes of the run's event log (switch step/from/to, seam decisions, operation outcomes)"
 }
@@ -135,6 +135,8 @@ func schedName(s int) string {
 		return "pct"
 	case simrt.SchedStore:
 		return "store"
+	case simrt.SchedSync:
+		return "sync"
 	}
 	return "replay"
 }
@@ -194,6 +196,14 @@ func (c14) Candidates(rf *ReplayFile) []*ReplayFile {
 		n = clone()
 		n.Sim.Decisions = n.Sim.Decisions[:len(n.Sim.Decisions)/2]
 		mk(n)
+	}
+	// drop single context switches (fewest switches wins)
+	if n := len(sc.Sim.Decisions); n > 1 && n <= 40 && sc.Sim.Sched == simrt.SchedReplay {
+		for i := n - 1; i >= 1; i-- {
+			c := clone()
+			c.Sim.Decisions = append(c.Sim.Decisions[:i], c.Sim.Decisions[i+1:]...)
+			mk(c)
+		}
 	}
 	// drop a task
 	if len(sc.Tasks) > 2 {
